@@ -74,6 +74,12 @@ TEMPLATES = [
     # every way a predicate can be written: simple, compound, postfix
     "{ P0++; }", "{ P2--; RdV = 1; }", "{ PdV++; }", "{ PxV--; }", "{ P1 += 1; }", "{ PdV &= RsV; }", "{ RdV = P3++; }",
     "{ if (RsV) { P0++; } }", "{ P1 <<= 1; }",
+    # constant conditions are conditions; registers that merely start with the letter p are no predicates
+    "{ if (1) { RdV = RsV; } }", "{ if (0x10) { JUMP(riV); } }", "{ if (1 == 1) { RdV = 1; } }", "{ if (0) { RdV = 1; } }",
+    "{ if (4 > 2) P0 = 1; }", "{ if (1) { RdV = 1; } else { RdV = 2; } }", "{ RdV = 1 ? RsV : RtV; }",
+    "{ HEX_REG_ALIAS_PC = RsV; }", "{ HEX_REG_ALIAS_PC += 4; }", "{ HEX_REG_ALIAS_PKTCOUNT = RssV; }", "{ HEX_REG_ALIAS_PKTCOUNTLO = RsV; }",
+    "{ HEX_REG_ALIAS_P3_0 = RsV; }", "{ HEX_REG_ALIAS_LR = RsV; HEX_REG_ALIAS_SP = RtV; }", "{ HEX_REG_ALIAS_UPCYCLE = RssV; }",
+    "{ RdV = HEX_REG_ALIAS_PKTCOUNTHI; }", "{ HEX_REG_ALIAS_FP = HEX_REG_ALIAS_PC + 8; }",
 ]
 
 
